@@ -68,8 +68,11 @@ static void gen_run(Rng &r, std::vector<av_t> &out, char forced_type = 0)
             case 'c': s.val.i = (int)r.range('a', 'f'); d.val.i = (int)r.range(1, 2); break;
             case 'i': s.val.i = (int)r.range(-3, 3); d.val.i = (int)r.range(-2, 2); if(!d.val.i) d.val.i = 1; break;
             case 'h': s.val.h = r.chance(0.5) ? 4294967290ll : r.range(-3, 3); d.val.h = r.chance(0.3) ? 4294967296ll : (r.range(1, 3)); break;
-            case 'f': s.val.f = (float)r.range(-2, 2) * 0.5f; d.val.f = (float)r.range(1, 3) * 0.25f; break;
-            case 'd': s.val.d = (double)r.range(-2, 2) * 0.5; d.val.d = (double)r.range(1, 3) * 0.25; break;
+            case 'f': s.val.f = (float)r.range(-2, 2) * 0.5f; d.val.f = (float)r.range(1, 3) * 0.25f;
+                      // steps a float does not hold exactly: element i is start + i*delta, not the (i-1)th element + delta
+                      if(r.chance(0.4)) { static const float D[] = {0.1f, 0.2f, 0.3f, 0.7f, 1.1f, 0.05f}; d.val.f = D[r.below(6)]; if(r.chance(0.5)) s.val.f = (float)r.range(1, 9); volatile float v1 = s.val.f + d.val.f; d.val.f = v1 - s.val.f; n = (int)r.range(3, 9); count("runs.inexact_float_step"); } break;
+            case 'd': s.val.d = (double)r.range(-2, 2) * 0.5; d.val.d = (double)r.range(1, 3) * 0.25;
+                      if(r.chance(0.4)) { static const double D[] = {0.1, 0.2, 0.3, 0.7, 1.1, 0.05}; d.val.d = D[r.below(6)]; if(r.chance(0.5)) s.val.d = (double)r.range(1, 9); volatile double v1 = s.val.d + d.val.d; d.val.d = v1 - s.val.d; n = (int)r.range(3, 9); count("runs.inexact_float_step"); } break;
         }
         for(int i = 0; i < n; ++i) out.push_back(step_val(s, d, i));
     } else {
